@@ -645,3 +645,239 @@ Proof.
   - induction 1 as [Hi|a b Hr IHr He]; [apply reach_root; exact Hi|].
     eapply reach_step; [exact IHr|]. apply (gc_edge _ _ _ _ _ _ U H IHr). exact He.
 Qed.
+
+(** ---- fuel: [mark] never runs out of fuel ---- *)
+Definition unmarkedb (h : heap) (a : Z) : bool :=
+  match hfind h a with Some o => negb (marked o) | None => false end.
+(** number of unmarked objects among the addresses dom *)
+Definition U (dom : list Z) (h : heap) : nat := length (filter (unmarkedb h) dom).
+Definition pot (dom : list Z) (h : heap) (stk : mstack) : nat := (length stk + U dom h)%nat.
+Definition dom_covers (dom : list Z) (h : heap) : Prop := forall a o, hfind h a = Some o -> In a dom.
+
+Lemma unmarkedb_mext h h' a : mext h h' -> unmarkedb h' a = true -> unmarkedb h a = true.
+Proof.
+  intros M. unfold unmarkedb. destruct (hfind h' a) as [o'|] eqn:E'; [|discriminate].
+  destruct (mext_find_rev _ _ _ _ M E') as (o & E & _ & Hm). rewrite E.
+  destruct (marked o); [|reflexivity]. rewrite (Hm eq_refl). auto.
+Qed.
+
+Lemma U_mext dom h h' : mext h h' -> (U dom h' <= U dom h)%nat.
+Proof.
+  intros M. unfold U. induction dom as [|a d IH]; cbn [filter length]; [lia|].
+  destruct (unmarkedb h' a) eqn:E'.
+  - rewrite (unmarkedb_mext _ _ _ M E'). cbn [length]. lia.
+  - destruct (unmarkedb h a); cbn [length]; lia.
+Qed.
+
+Lemma U_hmark_lt dom h x o : hfind h x = Some o -> marked o = false -> In x dom ->
+  (U dom (hmark h x o) < U dom h)%nat.
+Proof.
+  intros Ex Hm. pose proof (hfind_pos _ _ _ Ex) as Hp. pose proof (mext_hmark _ _ _ Ex) as M.
+  unfold U. induction dom as [|a d IH]; intros Hin; [destruct Hin|]. cbn [filter].
+  destruct (Z.eq_dec a x) as [->|Hne].
+  - assert (E1 : unmarkedb (hmark h x o) x = false).
+    { unfold unmarkedb. rewrite (hfind_hmark_same h x o Hp). reflexivity. }
+    assert (E2 : unmarkedb h x = true) by (unfold unmarkedb; rewrite Ex, Hm; reflexivity).
+    rewrite E1, E2. cbn [length]. pose proof (U_mext d _ _ M) as Hle. unfold U in Hle. lia.
+  - assert (E : unmarkedb (hmark h x o) a = unmarkedb h a).
+    { unfold unmarkedb. rewrite (hfind_hmark_other h x o a Hp Hne). reflexivity. }
+    rewrite E. destruct Hin as [Heq|Hin]; [congruence|]. specialize (IH Hin).
+    destruct (unmarkedb h a); cbn [length]; lia.
+Qed.
+
+Lemma dom_covers_mext dom h h' : mext h h' -> dom_covers dom h -> dom_covers dom h'.
+Proof.
+  intros M D a o' E'. destruct (mext_find_rev _ _ _ _ M E') as (o & E & _). eapply D; eauto.
+Qed.
+
+Definition step_ok (dom : list Z) (fb : nat) (step : heap -> mstack -> Z -> res state) : Prop :=
+  forall h stk x, dom_covers dom h -> (U dom h < fb)%nat ->
+    step h stk x <> Err OutOfFuel /\
+    (forall h' stk', step h stk x = Ok (h', stk') -> mext h h' /\ (pot dom h' stk' <= pot dom h stk)%nat).
+
+Lemma fold_ok dom fb step : step_ok dom fb step ->
+  forall l h stk, dom_covers dom h -> (U dom h < fb)%nat ->
+    fold_mark step l h stk <> Err OutOfFuel /\
+    (forall h' stk', fold_mark step l h stk = Ok (h', stk') -> mext h h' /\ (pot dom h' stk' <= pot dom h stk)%nat).
+Proof.
+  intros Hs. induction l as [|v l IH]; intros h stk D HU; cbn [fold_mark].
+  - split; [discriminate|]. intros h' stk' H. inversion H; subst. split; [apply mext_refl|lia].
+  - destruct (Hs h stk v D HU) as (S1 & S2).
+    destruct (step h stk v) as [[h1 stk1]|e] eqn:E.
+    + destruct (S2 _ _ eq_refl) as (M1 & P1).
+      assert (D1 : dom_covers dom h1) by (eapply dom_covers_mext; eauto).
+      assert (U1 : (U dom h1 < fb)%nat) by (pose proof (U_mext dom _ _ M1); lia).
+      destruct (IH h1 stk1 D1 U1) as (I1 & I2). split; [exact I1|].
+      intros h' stk' H. destruct (I2 _ _ H) as (M2 & P2). split; [eapply mext_trans; eauto|lia].
+    + split; [intros H; inversion H; subst; apply S1; reflexivity|]. intros h' stk' H; discriminate.
+Qed.
+
+Lemma range_ok dom fb step : step_ok dom fb step ->
+  forall n a p h stk, dom_covers dom h -> (U dom h < fb)%nat ->
+    mark_range step h stk a p n <> Err OutOfFuel /\
+    (forall h' stk', mark_range step h stk a p n = Ok (h', stk') -> mext h h' /\ (pot dom h' stk' <= pot dom h stk)%nat).
+Proof.
+  intros Hs. induction n as [|n IH]; intros a p h stk D HU; cbn [mark_range].
+  - split; [discriminate|]. intros h' stk' H. inversion H; subst. split; [apply mext_refl|lia].
+  - destruct (hfind h a) as [o|]; [|split; [discriminate|intros ? ? H; discriminate]].
+    destruct (nth_error (words o) p) as [v|]; [|split; [discriminate|intros ? ? H; discriminate]].
+    destruct (Hs h stk v D HU) as (S1 & S2).
+    destruct (step h stk v) as [[h1 stk1]|e] eqn:E.
+    + destruct (S2 _ _ eq_refl) as (M1 & P1).
+      assert (D1 : dom_covers dom h1) by (eapply dom_covers_mext; eauto).
+      assert (U1 : (U dom h1 < fb)%nat) by (pose proof (U_mext dom _ _ M1); lia).
+      destruct (IH a (S p) h1 stk1 D1 U1) as (I1 & I2). split; [exact I1|].
+      intros h' stk' H. destruct (I2 _ _ H) as (M2 & P2). split; [eapply mext_trans; eauto|lia].
+    + split; [intros H; inversion H; subst; apply S1; reflexivity|]. intros h' stk' H; discriminate.
+Qed.
+
+Lemma skip_marked_nofuel h ws p : forall n, skip_marked h ws p n <> Err OutOfFuel.
+Proof.
+  induction n as [|n IH]; cbn [skip_marked]; [discriminate|].
+  destruct (nth_error ws (p + S n)) as [v|]; [|discriminate].
+  destruct (is_imm v); [exact IH|]. destruct (hfind h v) as [o|]; [|discriminate].
+  destruct (marked o); [exact IH|discriminate].
+Qed.
+
+Lemma skip_dups_nofuel ws p : forall n, skip_dups ws p n <> Err OutOfFuel.
+Proof.
+  induction n as [|n IH]; cbn [skip_dups]; [discriminate|].
+  destruct (nth_error ws (p + S n)) as [a|]; [|discriminate].
+  destruct (nth_error ws (p + n)) as [b|]; [|discriminate].
+  destruct (a =? b); [exact IH|discriminate].
+Qed.
+
+Lemma mark_one_ok L dom : forall fuel, step_ok dom fuel (mark_one fuel L).
+Proof.
+  induction fuel as [|f IH]; intros h stk x D HU; [lia|].
+  split.
+  - (* never out of fuel *)
+    cbn [mark_one].
+    destruct (is_imm x); [discriminate|].
+    destruct (hfind h x) as [o|] eqn:Ex; [|discriminate].
+    destruct (marked o) eqn:Hm; [discriminate|].
+    pose proof (mext_hmark _ _ _ Ex) as M1.
+    assert (D1 : dom_covers dom (hmark h x o)) by (eapply dom_covers_mext; eauto).
+    pose proof (U_hmark_lt dom h x o Ex Hm (D _ _ Ex)) as Hlt.
+    assert (U1 : (U dom (hmark h x o) < f)%nat) by lia.
+    destruct (fold_ok dom f _ IH (if tag o =? context_tag L then saves o else []) _ stk D1 U1) as (F1 & F2).
+    destruct (fold_mark (mark_one f L) (if tag o =? context_tag L then saves o else []) (hmark h x o) stk) as [[h2 stk2]|e] eqn:Ef;
+      [|intros H; inversion H; subst; apply F1; reflexivity].
+    destruct (F2 _ _ eq_refl) as (M2 & P2).
+    assert (D2 : dom_covers dom h2) by (eapply dom_covers_mext; eauto).
+    assert (U2 : (U dom h2 < f)%nat) by (pose proof (U_mext dom _ _ M2); lia).
+    destruct (slot_range L o) as [[p ns]|]; [|discriminate].
+    destruct ns as [|len]; [discriminate|].
+    pose proof (skip_marked_nofuel h2 (words o) p len) as K1.
+    destruct (skip_marked h2 (words o) p len) as [n1|e1]; [|congruence].
+    pose proof (skip_dups_nofuel (words o) p n1) as K2.
+    destruct (skip_dups (words o) p n1) as [n2|e2]; [|congruence].
+    destruct (nth_error (words o) (p + n2)) as [y|]; [|discriminate].
+    exact (proj1 (IH h2 _ y D2 U2)).
+  - (* mark bits only; the potential does not grow *)
+    intros h' stk' H. split; [exact (proj1 (mark_one_post L _ _ _ _ _ _ H))|].
+    cbn [mark_one] in H.
+    destruct (is_imm x); [inversion H; subst; lia|].
+    destruct (hfind h x) as [o|] eqn:Ex; [|discriminate].
+    destruct (marked o) eqn:Hm; [inversion H; subst; lia|].
+    pose proof (mext_hmark _ _ _ Ex) as M1.
+    assert (D1 : dom_covers dom (hmark h x o)) by (eapply dom_covers_mext; eauto).
+    pose proof (U_hmark_lt dom h x o Ex Hm (D _ _ Ex)) as Hlt.
+    assert (U1 : (U dom (hmark h x o) < f)%nat) by lia.
+    destruct (fold_ok dom f _ IH (if tag o =? context_tag L then saves o else []) _ stk D1 U1) as (F1 & F2).
+    destruct (fold_mark (mark_one f L) (if tag o =? context_tag L then saves o else []) (hmark h x o) stk) as [[h2 stk2]|e] eqn:Ef;
+      [|discriminate].
+    destruct (F2 _ _ eq_refl) as (M2 & P2).
+    assert (D2 : dom_covers dom h2) by (eapply dom_covers_mext; eauto).
+    assert (U2 : (U dom h2 < f)%nat) by (pose proof (U_mext dom _ _ M2); lia).
+    destruct (slot_range L o) as [[p ns]|]; [|discriminate].
+    destruct ns as [|len]; [inversion H; subst; unfold pot in *; lia|].
+    destruct (skip_marked h2 (words o) p len) as [n1|e1]; [|discriminate].
+    destruct (skip_dups (words o) p n1) as [n2|e2]; [|discriminate].
+    destruct (nth_error (words o) (p + n2)) as [y|]; [|discriminate].
+    destruct (proj2 (IH h2 _ y D2 U2) _ _ H) as (_ & P3).
+    unfold pot in *. destruct n2; cbn [length] in P3; lia.
+Qed.
+
+Lemma mark_loop_nofuel L dom fuel1 : forall fuel h stk,
+  dom_covers dom h -> (U dom h < fuel1)%nat -> (pot dom h stk < fuel)%nat ->
+  mark_loop fuel fuel1 L h stk <> Err OutOfFuel.
+Proof.
+  induction fuel as [|f IH]; intros h stk D HU HP; [lia|]. cbn [mark_loop].
+  destruct stk as [|[[a p] n] stk1]; [discriminate|].
+  destruct (range_ok dom fuel1 _ (mark_one_ok L dom fuel1) n a p h stk1 D HU) as (R1 & R2).
+  destruct (mark_range (mark_one fuel1 L) h stk1 a p n) as [[h1 stk2]|e] eqn:E.
+  - destruct (R2 _ _ eq_refl) as (M1 & P1). apply IH.
+    + eapply dom_covers_mext; eauto.
+    + pose proof (U_mext dom _ _ M1); lia.
+    + unfold pot in *. cbn [length] in HP. lia.
+  - intros H; inversion H; subst; apply R1; reflexivity.
+Qed.
+
+Definition heap_dom (h : heap) : list Z := map (fun p => Zpos (fst p)) (PositiveMap.elements h).
+
+Lemma heap_dom_covers h : dom_covers (heap_dom h) h.
+Proof.
+  intros a o E. pose proof (hfind_pos _ _ _ E) as Hp. unfold hfind in E.
+  destruct (a <=? 0) eqn:Ea; [discriminate|]. apply PositiveMap.elements_correct in E.
+  unfold heap_dom. apply in_map_iff. exists (Z.to_pos a, o). split; [|exact E].
+  cbn [fst]. apply Z2Pos.id. exact Hp.
+Qed.
+
+Lemma U_le_length dom h : (U dom h <= length dom)%nat.
+Proof. unfold U. induction dom as [|a d IH]; cbn [filter length]; [lia|]. destruct (unmarkedb h a); cbn [length]; lia. Qed.
+
+Theorem mark_never_out_of_fuel L h root : mark L h root <> Err OutOfFuel.
+Proof.
+  unfold mark, mark_start. set (n := PositiveMap.cardinal h).
+  assert (Hn : (U (heap_dom h) h <= n)%nat).
+  { pose proof (U_le_length (heap_dom h) h) as Hle. unfold heap_dom in Hle at 2. rewrite map_length in Hle.
+    unfold n. rewrite PositiveMap.cardinal_1. exact Hle. }
+  destruct (mark_one_ok L (heap_dom h) (S n) h [] root (heap_dom_covers h) ltac:(lia)) as (S1 & S2).
+  destruct (mark_one (S n) L h [] root) as [[h1 stk1]|e] eqn:E.
+  - destruct (S2 _ _ eq_refl) as (M1 & P1). apply (mark_loop_nofuel L (heap_dom h)).
+    + eapply dom_covers_mext; [exact M1|apply heap_dom_covers].
+    + pose proof (U_mext (heap_dom h) _ _ M1); lia.
+    + unfold pot in *. cbn [length] in P1. lia.
+  - intros H; inversion H; subst; apply S1; reflexivity.
+Qed.
+
+(** ---- non-vacuity: the hypotheses of the theorems hold on a concrete heap ----
+    tags 0 ("pair": two slots) and 1 ("context": two slots + registered C locals);
+    32 = context -> 64 (slot) and 96 (registered local); 64 -> 128 and itself (cycle);
+    128 -> 96 twice (trailing duplicate); 96 holds immediates only; 160 is garbage pointing into the
+    live part. *)
+Definition exL : layout :=
+  mklayout [mkspec 8 2 2 0 0 24 0 0 0 0 0 0 0; mkspec 8 2 2 0 0 24 0 0 0 0 0 0 0] 1.
+Definition exM : heap := heap_of_list
+  [(32, mkobj 1 true [1; 64; 0] [96]); (64, mkobj 0 true [0; 128; 64] []); (96, mkobj 0 true [0; 1; 5] []);
+   (128, mkobj 0 true [0; 96; 96] []); (160, mkobj 0 true [0; 64; 1] [])].
+Definition exH : heap := sweep exM.
+Definition ex_marks (h : heap) : list bool :=
+  map (fun a => match hfind h a with Some o => marked o | None => false end) [32; 64; 96; 128; 160].
+
+Example ex_all_unmarked : all_unmarked exH.
+Proof. apply sweep_all_unmarked. Qed.
+
+Example ex_mark : exists h', mark exL exH 32 = Ok h' /\ ex_marks h' = [true; true; true; true; false].
+Proof. eexists. split; vm_compute; reflexivity. Qed.
+
+Example ex_reachable : reachable exL exH 32 128 /\ ~ reachable exL exH 32 160.
+Proof.
+  destruct ex_mark as (h' & Hm & Hb).
+  pose proof (mark_exactly_reachable exL exH 32 h' ex_all_unmarked Hm) as Hiff.
+  split.
+  - apply Hiff. unfold ex_marks in Hb. cbn [map] in Hb.
+    destruct (hfind h' 128) as [o|] eqn:E.
+    + exists o. split; [exact E|]. inversion Hb. reflexivity.
+    + inversion Hb.
+  - intros Hr. apply Hiff in Hr. destruct Hr as (o & E & Ho).
+    unfold ex_marks in Hb. cbn [map] in Hb. rewrite E in Hb. inversion Hb. congruence.
+Qed.
+
+Example ex_gc : exists h', gc exL exH 32 = Ok h' /\ hfind h' 128 = hfind exH 128 /\ hfind exH 128 <> None /\
+                           hfind h' 160 = None /\ hfind exH 160 <> None.
+Proof. eexists. repeat split; vm_compute; try reflexivity; discriminate. Qed.
+
+Example ex_wf_bool : heap_ok exL exH = true.
+Proof. vm_compute. reflexivity. Qed.
